@@ -54,6 +54,19 @@ def call(fn, *a):
         return Out(False, None, e)
 
 
+def _plain(W, v, depth=0):
+    """Values for the reader: nodes as handles, nothing that depends on uuids."""
+    if isinstance(v, Node):
+        return "<h%s>" % W.h_of.get(id(v), "?")
+    if isinstance(v, dict) and depth < 3:
+        return {k: _plain(W, x, depth + 1) for k, x in v.items() if k not in ("text", "text2", "legacy_twin")}
+    if isinstance(v, (list, tuple)) and depth < 3:
+        return [_plain(W, x, depth + 1) for x in v[:12]]
+    if isinstance(v, (str, int, float, bool)) or v is None:
+        return v if not isinstance(v, str) else v[:80]
+    return ascii(v)[:80]
+
+
 class Result:
     def __init__(self):
         self.seed = None
@@ -167,8 +180,8 @@ def simulate(prop, cfg, ops=None, known=(), digest=False, want_trace=False, stat
             profile.probes(c, res.probes)
             th.append((op["s"], op["k"], out.ok, op.get("q") or op.get("f") or op.get("ev")))
             if want_trace:
-                res.trace.append({"step": c.step, "op": op, "resolved": R, "outcome": out.brief(),
-                                  "value": ascii(out.value if out.ok else out.exc)[:160]})
+                res.trace.append({"step": c.step, "op": op, "resolved": _plain(W, R), "outcome": out.brief(),
+                                  "value": ascii(_plain(W, out.value) if out.ok else out.exc)[:160]})
             if sha is not None:
                 sha.update(json.dumps(op, sort_keys=True).encode())
                 sha.update(out.brief().encode())
